@@ -300,8 +300,14 @@ def oracle_reactor(ctx, rng, n_cases, max_steps=400):
             pos = [p for p in pos if rng.random() < 0.6] or pos[:1]
         gm = rng.choice(['flow', 'none', 'no_flow', 'flow'])
         const_props = ci % 2 == 0
+        # every fourth reactor: one of the geometric flow-split correlations (SE2 / MIT / Novendstern) - the subchannel flows are
+        # the area shares times the split, whatever correlation provides it
+        alt_split = dict(corr_flowsplit=rng.choice(['SE2', 'MIT', 'NOV']), corr_mixing='MIT',
+                         corr_friction=rng.choice(['CTD', 'UCTD'])) if ci % 4 == 2 else None
         case = gi.random_case(rng, positions=pos, n_types=rng.choice([1, 2]), gap_model=gm, length=rng.uniform(0.1, 0.4),
-                              const_props=const_props, flow_range=(0.05, 6.0) if const_props else (0.3, 6.0))
+                              const_props=const_props, flow_range=(0.05, 6.0) if const_props else (0.3, 6.0), opts=alt_split)
+        if alt_split:
+            ctx.count("reactors_with_split:" + alt_split['corr_flowsplit'])
         if not const_props:
             # temperature-dependent coolant: the balance is taken with the heat capacity each step starts with (the property's
             # "property lag"); flows in the transition regime make the flow split depend on the local Reynolds number
@@ -371,6 +377,12 @@ def oracle_reactor(ctx, rng, n_cases, max_steps=400):
                         continue
                     G = reg_state(reg)
                     E = reg_tallies(reg)
+                    # the flows the balance is weighted with are the assembly's flow: subchannel (node) flows sum to the flow rate
+                    # given to the assembly
+                    mtot = sum(float(np.sum(m_)) for (m_, t_, cp_) in G)
+                    if abs(mtot - float(a.flow_rate)) > 1e-9 * float(a.flow_rate) and not bad:
+                        bad.append(dict(kind="mass", asm=a.id, step=i, z=z, flows=mtot, flow_rate=float(a.flow_rate),
+                                        region=type(reg).__name__, split=str(getattr(reg, 'corr_names', {}).get('fs', ''))))
                     if key in state and i > 0:
                         G0, E0 = state[key]
                         # enthalpy-flow rise over the step: flows and heat capacity the step started with
@@ -412,6 +424,11 @@ def oracle_reactor(ctx, rng, n_cases, max_steps=400):
                 ctx.violation("c01-carry-over:%s->%s" % (b['frm'], b['to']),
                               "assembly %d: mixed-mean coolant temperature %.9g K before the region change, %.9g K after"
                               % (b['asm'], b['t_before'], b['t_after']), case=case, detail=b)
+            elif b['kind'] == "mass":
+                ctx.violation("c01-mass-weights:%s" % b['region'],
+                              "assembly %d at step %d: the subchannel flows of the active region sum to %.9g kg/s, the assembly is given "
+                              "%.9g kg/s: the mass-flow-weighted mean (and the mixed mean carried to the next region) is taken with "
+                              "weights that do not sum to one" % (b['asm'], b['step'], b['flows'], b['flow_rate']), case=case, detail=b)
             elif b['kind'] == "jump":
                 ctx.violation("c01-flow-redistributed:%s" % b['region'],
                               "assembly %d after step %d: the subchannel flows the next step starts with carry %.6g W more enthalpy than "
